@@ -240,6 +240,7 @@ func (b *BloomSearchEngine) rejectQueuedRequests(ctx context.Context) {
 	for {
 		select {
 		case req := <-b.ingestChan:
+			verifEv("stop_drain", req)
 			sendOptionalWithContext(ctx, req.doneChan, ErrEngineStopped)
 		default:
 			return
